@@ -245,6 +245,19 @@ def run(prop, tier, seed, out):
                             out.violation("registry replay %s: %s: expected %s, real broker %s" % (tag, m["what"], json.dumps(m["expected"])[:200], json.dumps(m["observed"])[:200]), m)
                     if r["by_prop"].get(prop, 0) and not out.violations:
                         out.violation("registry replay %s: %d mismatches attributed to %s" % (tag, r["by_prop"][prop], prop), (r["mismatches"] or [])[:3])
+            # ---- C02: thresholds read back as last set also when the setters meet the first registration of a type
+            if prop == "C02":
+                hp2, rp2 = scr.path("c02-hist.ndjson"), scr.path("c02-stress.json")
+                p = run_vh(vh, ["conc-record", "-seed", str(seed), "-n", "1", "-rounds", "4000" if quick else "40000", "-hist", hp2, "-out", rp2], timeout=1500)
+                if p.returncode != 0:
+                    if "panic" in p.stderr or "fatal error" in p.stderr:
+                        out.violation("process died during concurrent first use of an event type: " + p.stderr[:300], {"stderr": p.stderr[-3000:]})
+                    else:
+                        raise Broken("conc-record failed: " + p.stderr[-1000:])
+                else:
+                    for pr in json.load(open(rp2))["problems"]:
+                        if pr["prop"] == "C02":
+                            out.violation(pr["what"], pr)
             # ---- C03 with the Broker's own lock in the picture: Sends whose nodes call back into the Broker (nested Send, a
             # node registering something, the library's gated filter flushing through the Broker) while other goroutines
             # write; Locks.tla (checked by C12) says every such Send returns when no Broker lock is held across Process
